@@ -191,7 +191,7 @@ def random_instance(cls, pool: Pool, rng):
 def helper_instances(pool: Pool) -> list[tuple[str, str, sp.Basic]]:
     """Hand-built instances of the helper classes that are not dataclass-like."""
     from ampform.sympy import PoolSum, UnevaluatableIntegral  # noqa: PLC0415
-    from ampform.sympy._array_expressions import ArrayAxisSum, ArrayMultiplication, ArraySlice, ArraySum, MatrixMultiplication  # noqa: PLC0415
+    from ampform.sympy._array_expressions import ArrayAxisSum, ArrayMultiplication, ArraySlice, ArraySum, ArraySymbol, MatrixMultiplication  # noqa: PLC0415
     from ampform.sympy.math import ComplexSqrt  # noqa: PLC0415
 
     L = pool.L
@@ -206,6 +206,10 @@ def helper_instances(pool: Pool) -> list[tuple[str, str, sp.Basic]]:
         ("ArrayAxisSum", "slice", ArrayAxisSum(ArraySlice(p, (slice(None), slice(1, None))) ** 2, axis=1)),
         ("ArraySlice", "energy", ArraySlice(p, (slice(None), 0))),
         ("ArraySlice", "nested", ArraySlice(ArraySum(p, q), (slice(None), 3))),
+        # array symbols with an explicit shape (slices are normalised against the axis sizes)
+        ("ArraySlice", "shaped", ArraySlice(ArraySymbol("xs", shape=(3, 4)), (slice(None), 0))),
+        ("ArraySlice", "shaped-negative", ArraySlice(ArraySymbol("xs", shape=(5, 4)), (slice(1, -1), -1))),
+        ("ArrayAxisSum", "shaped", ArrayAxisSum(ArraySlice(ArraySymbol("xs", shape=(3, 4)), (slice(None), slice(1, None))), axis=1)),
         ("ArrayMultiplication", "boost", ArrayMultiplication(L.BoostMatrix(q), p)),
         ("ArrayMultiplication", "chain", ArrayMultiplication(L.BoostZMatrix(x / (x + 1), n), L.RotationYMatrix(-y, n), L.RotationZMatrix(z, n), p)),
         ("MatrixMultiplication", "two", MatrixMultiplication(L.RotationZMatrix(x, n), L.RotationYMatrix(y, n))),
